@@ -1560,4 +1560,7 @@ func TestVerifC14(t *testing.T) {
 	rec.Extra("exhaustive", true)
 	rec.Extra("exhaustive_scope", fmt.Sprintf("document histories: create + every sequence of <= %d operations over %v (%d cases); allow-list: every sequence of <= %d events over 3 transfers (open/close)", c14Len(3, 4), c14Alphabet, nExh, c14Len(3, 4)))
 	c14AllowList(t, rec, r, pool)
+	// attachment compaction (harness/db/verif_c14_compact_test.go); last, so that the streams above see the same
+	// pseudo-random sequence as before it was added
+	c14Compaction(t, rec, r)
 }
